@@ -90,7 +90,7 @@ func c02Placements() ([]*zr.Program, []string) {
 }
 
 func checkC02(c *Ctx) {
-	c.rule = "programs: (a) bounded-exhaustive: every placement of one transfer statement (输出, 结束循环, 继续循环) in every 2-level nesting of {如果, 否则, 每当, 遍历-list, 遍历-dict}, inside and outside a method, with display marks before/after every transfer; (b) random statement trees (如果/再如/否则, 每当, 遍历 over list/dict literals and variables with 0/1/2 names, break/continue/输出 at any depth, methods, final expression statement, non-boolean conditions); (c) hand-written programs whose 每当 condition binds its result with 得到 (re-tested on every pass, with 继续循环 / 结束循环 / 输出, nested in 遍历 and in a method; 输出 in the body of a 每当 whose condition has an effect, displays, faults or is no longer boolean afterwards; expected value and display written down; 遍历 whose loop variable carries the name of something its own header uses: the list itself, the outer element, an argument, an index, an object). Oracle: reference evaluator (result + ordered display trace); termination by evaluator tick budget 50x the reference step count. distinct_nontrivial = distinct (family, feature set / placement, outcome kind)"
+	c.rule = "programs: (a) bounded-exhaustive: every placement of one transfer statement (输出, 结束循环, 继续循环) in every 2-level nesting of {如果, 否则, 每当, 遍历-list, 遍历-dict}, inside and outside a method, with display marks before/after every transfer; (b) random statement trees (如果/再如/否则, 每当, 遍历 over list/dict literals and variables with 0/1/2 names, break/continue/输出 at any depth, methods, final expression statement, non-boolean conditions); (c) hand-written programs whose 每当 condition binds its result with 得到 (re-tested on every pass, with 继续循环 / 结束循环 / 输出, nested in 遍历 and in a method; 输出 in the body of a 每当 whose condition has an effect, displays, faults or is no longer boolean afterwards; expected value and display written down; 遍历 whose loop variable carries the name of something its own header uses: the list itself, the outer element, an argument, an index, an object; 遍历 over a dictionary after its copy / its original was changed structurally). Oracle: reference evaluator (result + ordered display trace); termination by evaluator tick budget 50x the reference step count. distinct_nontrivial = distinct (family, feature set / placement, outcome kind)"
 	c.assumptions = []string{"generated programs terminate by construction (loops have literal bounds)", "cases the reference marks unspecified (U1-U9 in DESIGN) are skipped and counted"}
 	rng := c.Rand("c02")
 	progs, shapes := c02Placements()
@@ -137,6 +137,17 @@ func checkC02(c *Ctx) {
 			hp{"iterate-header/index-name-used-in-header", "令序 = 2\n令表 = 【【7】，【8，9】】\n以序、项遍历表#序：\n\t（显示：序、项）\n输出 序\n", "num(2)", "1 8\n2 9\n"},
 			hp{"iterate-header/member-of-object-named-like-variable", "定义箱：\n\t其物 = 【4，5】\n令物 = （新建箱）\n以物遍历物之物：\n\t（显示：物）\n输出 物之物\n", "list[num(4),num(5)]", "4\n5\n"},
 			hp{"iterate-header/inside-while-pass", "令项 = 【1，2】\n令次 = 0\n每当 次 < 2：\n\t次 = 次 + 1\n\t以项遍历项：\n\t\t（显示：次、项）\n输出 次\n", "num(2)", "1 1\n1 2\n2 1\n2 2\n"},
+		)
+		// 遍历 visits the entries of *this* dictionary in the order they were put into it, whatever
+		// happened meanwhile to a copy of it (or to the dictionary it was copied from)
+		d3 := "令甲 = 【“a” = 1，“b” = 2，“c” = 3】\n令乙 = 甲\n"
+		loop := func(n string) string { return "以键、值遍历" + n + "：\n\t（显示：键、值）\n" }
+		hps = append(hps,
+			hp{"iterate-copy/entry-removed-from-the-original", d3 + "以甲（移除：“a”）\n" + loop("乙") + loop("甲") + "输出 0\n", "num(0)", "a 1\nb 2\nc 3\nb 2\nc 3\n"},
+			hp{"iterate-copy/entry-removed-from-the-copy", d3 + "以乙（移除：“b”）\n" + loop("甲") + loop("乙") + "输出 0\n", "num(0)", "a 1\nb 2\nc 3\na 1\nc 3\n"},
+			hp{"iterate-copy/new-keys-written-into-both", d3 + "以甲（写入：“p”、10）\n以乙（写入：“q”、20）\n" + loop("乙") + loop("甲") + "输出 0\n", "num(0)", "a 1\nb 2\nc 3\nq 20\na 1\nb 2\nc 3\np 10\n"},
+			hp{"iterate-copy/copy-of-a-copy-and-reinsert", d3 + "令丙 = 乙\n以乙（移除：“a”）\n乙#“a” = 9\n丙#“d” = 4\n" + loop("乙") + loop("丙") + loop("甲") + "输出 0\n", "num(0)", "b 2\nc 3\na 9\na 1\nb 2\nc 3\nd 4\na 1\nb 2\nc 3\n"},
+			hp{"iterate-copy/list-of-dictionaries", "令表 = 【【“a” = 1，“b” = 2】】\n令副 = 表\n以表#1（移除：“a”）\n以副#1（写入：“z”、0）\n" + loop("副#1") + loop("表#1") + "输出 0\n", "num(0)", "a 1\nb 2\nz 0\nb 2\n"},
 		)
 		hreqs := []Req{}
 		for _, h := range hps {
